@@ -86,3 +86,45 @@ def givenNameMax (names : List (List Nat)) : Status := nameTooLong 32768 Status.
 def givenNameRecommended (names : List (List Nat)) : Status := nameTooLong 64 Status.warn names
 
 end Zl.Thresholds
+
+/-! ### utf8.DecodeRune and the walk of e_subject_dn_not_printable_characters (lints/rfc) -/
+namespace Zl.Thresholds
+
+/-- `utf8.DecodeRune`: (rune, width); an invalid or truncated sequence is (U+FFFD, 1), empty input (U+FFFD, 0) -/
+def decodeRune (bs : List Nat) : Nat × Nat :=
+  match bs with
+  | [] => (0xFFFD, 0)
+  | b :: rest =>
+    let w := width (b :: rest)
+    if b < 0x80 then (b, 1)
+    else if w ≤ 1 then (0xFFFD, 1)
+    else match w, rest with
+      | 2, c1 :: _ => ((b % 32) * 64 + c1 % 64, 2)
+      | 3, c1 :: c2 :: _ => ((b % 16) * 4096 + (c1 % 64) * 64 + c2 % 64, 3)
+      | 4, c1 :: c2 :: c3 :: _ => ((b % 8) * 262144 + (c1 % 64) * 4096 + (c2 % 64) * 64 + c3 % 64, 4)
+      | _, _ => (0xFFFD, 1)
+
+inductive WalkOut where
+  | pass | error | panic
+  deriving DecidableEq, Repr
+
+/-- `for len(bytes) > 0 { r, size := utf8.DecodeRune(bytes); …; bytes = bytes[size:] }` with a checked re-slice -/
+def printableWalk : Nat → List Nat → WalkOut
+  | 0, [] => .pass
+  | 0, _ :: _ => .panic                      -- out of fuel (fuel = length suffices: every round consumes a byte)
+  | _ + 1, [] => .pass
+  | fuel + 1, b :: rest =>
+    let (r, size) := decodeRune (b :: rest)
+    if r < 0x20 then .error
+    else if 0x7F ≤ r ∧ r ≤ 0x9F then .error
+    else if size ≤ (b :: rest).length then printableWalk fuel ((b :: rest).drop size) else .panic
+
+/-- the lint over the attribute values of the subject, in order -/
+def dnNotPrintable : List (List Nat) → WalkOut
+  | [] => .pass
+  | v :: vs =>
+    match printableWalk v.length v with
+    | .pass => dnNotPrintable vs
+    | o => o
+
+end Zl.Thresholds
